@@ -10,6 +10,9 @@ work() {
   [ -d $clone ] || git clone -q /repo $clone
   git -C $clone fetch -q origin
   git -C $clone reset -q --hard origin/main
+  # a private copy of /verif's inputs, so that evidence and replay files of these runs never land in /verif
+  sv=/var/tmp/seedverif-$w
+  mkdir -p $sv && rsync -a --delete --exclude .git --exclude evidence --exclude replays --exclude bin --exclude .work --exclude seeded /verif/ $sv/ && mkdir -p $sv/evidence $sv/replays
   for s in "$@"; do
     prop=${s%-*}
     p=/verif/seeded/$s/patch.diff; [ -f /verif/seeded/$s/patch_ported.diff ] && p=/verif/seeded/$s/patch_ported.diff
@@ -18,8 +21,8 @@ work() {
     (cd $clone && git reset -q && go build ./... 2>&1 | head -2)
     det=""; und=0
     for q in $prop ${EXTRA[$prop]}; do
-      out=$(cd /verif && /verif/bin/govc check -repo $clone $q 2>&1)
-      d=$(echo "$out" | grep "^VIOLATION" | sed "s/^VIOLATION property=[A-Z0-9]* replay=\/verif\/replays\/\([^ ]*\)\.json.*/$q:\1/" | head -3 | tr '\n' ' ')
+      out=$(cd $sv && /verif/bin/govc check -repo $clone -verif $sv $q 2>&1)
+      d=$(echo "$out" | grep "^VIOLATION" | sed "s/^VIOLATION property=[A-Z0-9]* replay=[^ ]*\/replays\/\([^ ]*\)\.json.*/$q:\1/" | head -3 | tr '\n' ' ')
       det="$det$d"
       und=$((und + $(echo "$out" | grep -c "^UNDECIDED")))
     done
